@@ -110,7 +110,7 @@ def kernel(tier):
                 nonrepro.append(f"{kind}: no model ({x})")
                 return
             if kind == "shared":
-                w = K.replay_shared(limits[0], R, x["order"], x["model"])
+                w = K.replay_shared(limits[0], R, x["order"], x["model"], private=(limits[1] if len(limits) > 1 else None))
             else:
                 fn = K.replay_runs_ahead if kind == "ahead" else K.replay_unnecessary_delay
                 w = fn(limits, R, direction, x["model"])
@@ -170,6 +170,14 @@ def kernel(tier):
                 sigs.append(f"shared:{L}:{no}-interleavings")
                 for x in v:
                     add_witness("shared", [L], 10, "read", x, f"two streams sharing the limit moved more than L*elapsed + one block each (event order {x.get('order')})")
+            # (b') ... also when each stream carries a tighter limit of its own below the shared one (per-connection level under a
+            # server-wide / per-user level): G < 2 P, so the shared limit binds only when both streams are active
+            for G, Pl in ([(3, 2)] if q else [(3, 2), (1000, 600), (8192, 8191)]):
+                v, n, no = K.check_shared(G, 10, 2, 2 if q else 3, 0, st, limit_orders=None if not q else 70, private=Pl)
+                evaluations += n
+                sigs.append(f"shared+private:{G}/{Pl}:{no}-interleavings")
+                for x in v:
+                    add_witness("shared", [G, Pl], 10, "read", x, f"two streams with private limit {Pl} sharing the limit {G} moved more than G*elapsed + one block each (event order {x.get('order')})")
             # (c) clones are independent, limit setter forgets the window
             for x in K.check_clone_independent(st) + K.check_limit_setter(st):
                 violations.append({"key": "kernel:" + x["kind"], "what": str(x), "call": "None"})
